@@ -25,6 +25,16 @@ def gen_c09(tier, rng):
         for before in ((255, 65535, 65791, 131071) if big else (65535,)):
             for park in "ws":
                 out.append("\t".join(["mt", "turn", sink, "2", "2", park, str(before), "asan"]))
+        # sequences of turnstiles among three long-lived threads: the parked writer of one round is the intruder of the
+        # next, a thread that waited comes back while a third one is inside, ...
+        seqs = ["01.10.01", "01.12.20.02", "01.01.10.21.12"] + (["10.02.21.10.01.20", "02.20.12.21.01.10"] if big else [])
+        for rounds in seqs:
+            for park in "ws":
+                out.append("\t".join(["mt", "turnseq", sink, rounds, park, "asan"]))
+        # chains of turnstiles without a gap (the blocked thread of one round is the parked one of the next)
+        for seq in ["0120", "01210", "0101"] + (["012012", "02120", "010201"] if big else []):
+            for park in "ws":
+                out.append("\t".join(["mt", "chain", sink, seq, park, "asan"]))
         for n in (2, 4, 8):
             for r in ((20, 120, 250) if big else (20, 120)):
                 for mode in ((2, 5, 6, 7, 8) if big else (6, 7, 8)):
